@@ -159,3 +159,202 @@ theorem quoteRescan_more {len : Nat} {a : Bytes} {i carry off : Nat} (hl : len =
   | case5 c rest i hc hq => simp
 
 end Jomini.TextReader
+
+namespace Jomini.TextReader
+open Jomini Jomini.TextReader.Spec
+
+/-- a scan result is either `closed` or `more`, and `quoteEnd` decides which: the re-scan from a
+resume offset and the scan from the start of the body agree. -/
+theorem resume_quote {w : Bytes} {carry off : Nat} (b : Bytes) (n : Nat)
+    (h : quoteScan w 0 = .more carry off) :
+    quoteRescan (w ++ b).length ((w ++ b).drop off) off = .closed n ↔ quoteScan (w ++ b) 0 = .closed n := by
+  obtain ⟨_, hc, _, ho, hres⟩ := quoteScan_more h
+  have hres := hres b
+  simp only [Nat.sub_zero] at hres
+  have hlen : (w ++ b).length = off + ((w ++ b).drop off).length := by
+    simp at hc; simp; omega
+  constructor
+  · intro h1
+    have e1 := quoteRescan_closed h1
+    cases h2 : quoteScan (w ++ b) 0 with
+    | closed m => have := quoteScan_closed h2; rw [hres, e1] at this; simp at this; rw [this]
+    | more c o => have := (quoteScan_more h2).1; rw [hres, e1] at this; simp at this
+  · intro h1
+    have e1 := quoteScan_closed h1
+    cases h2 : quoteRescan (w ++ b).length ((w ++ b).drop off) off with
+    | closed m => have := quoteRescan_closed h2; rw [← hres, e1] at this; simp at this; rw [this]
+    | more c o => have := (quoteRescan_more hlen h2).1; rw [← hres, e1] at this; simp at this
+
+/-- the same for a second and later refill of one string (resume offset recorded by the re-scan). -/
+theorem resume_quote_again {w : Bytes} {i carry off : Nat} (b : Bytes) (n : Nat)
+    (h : quoteRescan (i + w.length) w i = .more carry off) :
+    quoteRescan (i + (w ++ b).length) ((w ++ b).drop (off - i)) off = .closed n ↔
+      quoteRescan (i + (w ++ b).length) (w ++ b) i = .closed n := by
+  obtain ⟨_, hc, hio, ho, hres⟩ := quoteRescan_more rfl h
+  have hres := hres b
+  have hlen : i + (w ++ b).length = off + ((w ++ b).drop (off - i)).length := by
+    simp; omega
+  constructor
+  · intro h1
+    have e1 := quoteRescan_closed h1
+    cases h2 : quoteRescan (i + (w ++ b).length) (w ++ b) i with
+    | closed m => have := quoteRescan_closed h2; rw [hres, e1] at this; simp at this; rw [this]
+    | more c o => have := (quoteRescan_more rfl h2).1; rw [hres, e1] at this; simp at this
+  · intro h1
+    have e1 := quoteRescan_closed h1
+    cases h2 : quoteRescan (i + (w ++ b).length) ((w ++ b).drop (off - i)) off with
+    | closed m => have := quoteRescan_closed h2; rw [← hres, e1] at this; simp at this; rw [this]
+    | more c o => have := (quoteRescan_more hlen h2).1; rw [← hres, e1] at this; simp at this
+
+/-! ### decided tokens are stable under extension of the window -/
+
+theorem quoteScan_closed_append {a : Bytes} {i n : Nat} (b : Bytes) :
+    quoteScan a i = .closed n → quoteScan (a ++ b) i = .closed n := by
+  intro h
+  have e := quoteEnd_append b (quoteScan_closed h)
+  cases h2 : quoteScan (a ++ b) i with
+  | closed m => have := quoteScan_closed h2; rw [e] at this; simp at this; rw [this]
+  | more c o => have := (quoteScan_more h2).1; rw [e] at this; simp at this
+
+theorem take_succ_append {a : Bytes} (b : Bytes) (c : UInt8) (k : Nat) (hk : k ≤ a.length) :
+    (c :: (a ++ b)).take (k + 1) = (c :: a).take (k + 1) := by
+  simp only [List.take_succ_cons]
+  rw [List.take_append_of_le_length hk]
+
+theorem quoteTok_stable {rest : Bytes} {i adv : Nat} {t : Token} (b : Bytes) :
+    quoteTok rest i = .tok adv t → quoteTok (rest ++ b) i = .tok adv t := by
+  unfold quoteTok
+  cases hq : quoteScan rest 0 with
+  | more carry off => simp
+  | closed n =>
+    intro h
+    rw [quoteScan_closed_append b hq]
+    have hb := quoteEnd_bounds (quoteScan_closed hq)
+    simp only at h ⊢
+    rw [List.take_append_of_le_length (by omega)]
+    exact h
+
+theorem unqTok_stable {c : UInt8} {rest : Bytes} {i adv : Nat} {t : Token} (b : Bytes) :
+    unqTok c rest i = .tok adv t → unqTok c (rest ++ b) i = .tok adv t := by
+  unfold unqTok
+  cases hf : findIdx isBoundary rest 0 with
+  | none => simp
+  | some k =>
+    intro h
+    rw [findIdx_append_some b hf]
+    have hb := findIdx_some_bounds hf
+    simp only at h ⊢
+    rw [show 1 + k = k + 1 by omega] at h ⊢
+    rw [take_succ_append b c k (by omega)]
+    exact h
+
+theorem atTok_stable {c : UInt8} {rest : Bytes} {i adv : Nat} {t : Token} (b : Bytes) :
+    atTok c rest i = .tok adv t → atTok c (rest ++ b) i = .tok adv t := by
+  unfold atTok
+  cases rest with
+  | nil => simp
+  | cons d rest' =>
+    simp only [List.cons_append]
+    split
+    · cases hf : findIdx (· == 93) rest' 0 with
+      | none => simp
+      | some k =>
+        intro h
+        rw [findIdx_append_some b hf]
+        have hb := findIdx_some_bounds hf
+        simp only at h ⊢
+        rw [show 2 + k + 1 = (k + 1 + 1) + 1 by omega] at h ⊢
+        rw [show d :: (rest' ++ b) = (d :: rest') ++ b by rfl, take_succ_append b c (k + 1 + 1) (by simp; omega)]
+        exact h
+    · intro h
+      exact unqTok_stable (rest := d :: rest') b h
+
+theorem opTok2_stable {p q : Op} {rest : Bytes} {i adv : Nat} {t : Token} (b : Bytes) :
+    opTok2 p q rest i = .tok adv t → opTok2 p q (rest ++ b) i = .tok adv t := by
+  unfold opTok2; cases rest <;> simp
+
+theorem opTok1_stable {o : Op} {rest : Bytes} {i adv : Nat} {t : Token} (b : Bytes) :
+    opTok1 o rest i = .tok adv t → opTok1 o (rest ++ b) i = .tok adv t := by
+  unfold opTok1; cases rest <;> simp
+
+/-- **no token is split**: a token that `next_opt_fallback` decides inside the window is the token it
+decides on every extension of the window (same bytes, same advance). -/
+theorem tokenAt_stable {c : UInt8} {rest : Bytes} {i adv : Nat} {t : Token} (b : Bytes) :
+    tokenAt c rest i = .tok adv t → tokenAt c (rest ++ b) i = .tok adv t := by
+  unfold tokenAt
+  split; · exact id
+  split; · exact id
+  split; · exact quoteTok_stable b
+  split; · exact atTok_stable b
+  split; · exact opTok2_stable b
+  split; · exact opTok2_stable b
+  split; · exact opTok1_stable b
+  split; · exact opTok1_stable b
+  split; · exact opTok2_stable b
+  exact unqTok_stable b
+
+/-! unfolding lemmas for `fbLoop` that do not depend on the shape of the tail -/
+
+theorem fbLoop_comment_cons (pos0 : Bool) (c : UInt8) (rest : Bytes) (s i : Nat) (bom : Bom) :
+    fbLoop pos0 (c :: rest) (.comment s) i bom =
+      if c == 10 then fbLoop pos0 rest .top (i + 1) bom else fbLoop pos0 rest (.comment s) (i + 1) bom := by
+  rcases rest with _ | ⟨d, _ | ⟨e, r⟩⟩ <;> simp [fbLoop]
+
+theorem fbLoop_top_cons (pos0 : Bool) (c : UInt8) (rest : Bytes) (i : Nat) (bom : Bom) :
+    fbLoop pos0 (c :: rest) .top i bom =
+      if isBlank c then fbLoop pos0 rest .top (i + 1) bom
+      else if c == 35 then fbLoop pos0 rest (.comment i) (i + 1) bom
+      else if c == 0xef && bom == .unknown then
+        if i != 0 || !pos0 then (.notPresent, tokenAt c rest i)
+        else
+          match rest with
+          | d :: e :: rest' =>
+            if d == 0xbb && e == 0xbf then fbLoop pos0 rest' .top (i + 3) .present
+            else (.notPresent, tokenAt c rest i)
+          | _ => (bom, .bomFill)
+      else (bom, tokenAt c rest i) := by
+  rcases rest with _ | ⟨d, _ | ⟨e, r⟩⟩ <;> simp [fbLoop]
+
+theorem fbLoop_stable_aux {pos0 : Bool} {bom' : Bom} {adv : Nat} {t : Token} (b : Bytes) (n : Nat) :
+    ∀ (w : Bytes) (m : Mode) (i : Nat) (bom : Bom), w.length ≤ n →
+    fbLoop pos0 w m i bom = (bom', .tok adv t) → fbLoop pos0 (w ++ b) m i bom = (bom', .tok adv t) := by
+  induction n with
+  | zero =>
+    intro w m i bom hl
+    have : w = [] := List.eq_nil_of_length_eq_zero (by omega)
+    subst this
+    cases m <;> simp [fbLoop]
+  | succ n ih =>
+    intro w m i bom hl
+    cases w with
+    | nil => cases m <;> simp [fbLoop]
+    | cons c rest =>
+      have hr : rest.length ≤ n := by simp at hl; omega
+      cases m with
+      | comment s =>
+        simp only [List.cons_append, fbLoop_comment_cons]
+        split <;> exact ih rest _ _ _ hr
+      | top =>
+        simp only [List.cons_append, fbLoop_top_cons]
+        split; · exact ih rest _ _ _ hr
+        split; · exact ih rest _ _ _ hr
+        split
+        · split
+          · intro h; simp only [Prod.mk.injEq] at h ⊢; exact ⟨h.1, tokenAt_stable b h.2⟩
+          · rcases rest with _ | ⟨d, _ | ⟨e, r⟩⟩
+            · simp
+            · simp
+            · simp only [List.cons_append]
+              split
+              · exact ih r _ _ _ (by simp at hr; omega)
+              · intro h; simp only [Prod.mk.injEq] at h ⊢; exact ⟨h.1, tokenAt_stable (rest := d :: e :: r) b h.2⟩
+        · intro h; simp only [Prod.mk.injEq] at h ⊢; exact ⟨h.1, tokenAt_stable b h.2⟩
+
+/-- **no token is split, whole scan**: if `next_opt_fallback`'s scan of a window decides a token, the
+scan of every extension of that window decides the same token with the same advance. -/
+theorem fbLoop_stable {pos0 : Bool} {w : Bytes} {m : Mode} {i : Nat} {bom bom' : Bom} {adv : Nat} {t : Token}
+    (b : Bytes) :
+    fbLoop pos0 w m i bom = (bom', .tok adv t) → fbLoop pos0 (w ++ b) m i bom = (bom', .tok adv t) :=
+  fbLoop_stable_aux b w.length w m i bom (Nat.le_refl _)
+
+end Jomini.TextReader
